@@ -105,8 +105,8 @@ impl Check for C13 {
     }
     fn runs(&self, tier: Tier) -> u64 {
         match tier {
-            Tier::Quick => 60_000,
-            Tier::Thorough => 3_000_000,
+            Tier::Quick => 120_000,
+            Tier::Thorough => 5_000_000,
         }
     }
     fn generate(&self, rng: &mut Rng, _tier: Tier, _idx: u64) -> SeqScn {
